@@ -123,6 +123,31 @@ def concat_search(ctx, shim, r, per_font, pc, pt, only_aat, name):
                               ("AAT fonts: " if only_aat else "OpenType path: ") + CONCAT_RULE, kind="concat")
 
 
+def concat_synth_search(ctx, shim, r, nfonts, per_font, pc, pt):
+    C03mod.metamorphic_search(ctx, shim, r, per_font, pc, pt, False, "concat-redistribution-synth", F.verify_concat, [pc, pc, pc | pt],
+                              "redistributing UNSAFE_TO_CONCAT-free segments changes the result",
+                              C03mod.SYNTH_RULE + "then as concat-redistribution-ot: segment at ALL cluster starts free of UNSAFE_TO_CONCAT, "
+                              "even / odd segments shaped as two texts, glyphs taken back by cluster ownership, compared with the whole",
+                              kind="concat", groups=F.synth_groups(r, nfonts), make=C03mod.synth_make, classify=F.synth_known_class)
+
+
+FRACTION_RULE = ("fonts with fraction features (synthetic: digits, U+2044, letters of Latin / Hebrew, any of frac / numr / dnom that makes "
+                 "the plan fraction-aware; plus every font under tests/fonts that names frac or numr+dnom) x texts of digit runs, "
+                 "U+2044 FRACTION SLASH, letters and spaces with at least one slash (digits on both, one or no side of it) x "
+                 "directions l, r, t, b x levels 0/1; ")
+
+
+def fraction_make(r, g, flags, k):
+    return F.make_fraction_shaping(r, g, flags)
+
+
+def concat_fraction_search(ctx, shim, r, nfonts, per_font, pc, pt):
+    C03mod.metamorphic_search(ctx, shim, r, per_font, pc, pt, False, "concat-fraction", F.verify_concat, [pc, pc, pc | pt],
+                              "redistributing UNSAFE_TO_CONCAT-free segments changes the result",
+                              FRACTION_RULE + "the redistribution experiment of concat-redistribution-ot",
+                              kind="concat", groups=F.fraction_groups(r, nfonts), make=fraction_make, classify=F.fraction_known_class)
+
+
 def run(ctx):
     ctx.assumptions += [
         "theorems are about the Lean model of propagate_flags (ot_shape.rs) and of the flag setters of buffer.rs; the "
@@ -141,10 +166,18 @@ def run(ctx):
     ctx.correspond("flags-walks",
                    lines=[F.flag_walk(r, pc, pt, adversarial=True) for _ in range(ctx.budget(20000, 300000))],
                    classify=F.classify_walk, canon=F.canon_panic)
+    rc = ctx.rng("carry")
+    ctx.correspond("flags-carry", lines=[F.carry_walk(rc, pc, pt) for _ in range(ctx.budget(5000, 100000))],
+                   classify=F.classify_walk, canon=F.canon_panic)
+    import C06 as C06mod
+    ctx.correspond("gsub-flags", groups=C03mod.gsub_flag_groups(ctx, shim, ctx.rng("gsub-flags"), ctx.budget(150, 3000), 10),
+                   classify=C06mod.gsub_classify, canon=F.canon_panic, only=lambda ln: ln.startswith("gsub "))
     hook_search(ctx, shim, ctx.rng("hook"), ctx.budget(20000, 300000), pc, pt)
     shape_hygiene(ctx, shim, ctx.rng("hygiene"), ctx.budget(48, 400), pc, pt)
     concat_search(ctx, shim, ctx.rng("concat-ot"), ctx.budget(60, 1000), pc, pt, False, "concat-redistribution-ot")
     concat_search(ctx, shim, ctx.rng("concat-aat"), ctx.budget(80, 1500), pc, pt, True, "concat-redistribution-aat")
+    concat_synth_search(ctx, shim, ctx.rng("concat-synth"), ctx.budget(200, 4000), 12, pc, pt)
+    concat_fraction_search(ctx, shim, ctx.rng("concat-fraction"), ctx.budget(30, 400), ctx.budget(30, 60), pc, pt)
 
 
 def replay(ctx, rp):
@@ -157,7 +190,7 @@ def replay(ctx, rp):
         dev = F.hygiene(gl, want["PRODUCE_UNSAFE_TO_CONCAT"], want["PRODUCE_SAFE_TO_INSERT_TATWEEL"]) if gl else [("crash", o)]
         for k, d in dev: print("deviation:", k, d)
         return 1 if dev else 0
-    if rp.get("stream", "").startswith("concat-redistribution"):
+    if rp.get("stream", "").startswith("concat-"):
         s = F.shaping_from_replay(rp)
         o = F.verify_concat(shim, [s])[0]
         print("request:", s.line)
